@@ -133,19 +133,62 @@ Notation dec_fresh_equiv := (dec_fresh_equiv DT DV DR DC ER dr0 dc0 des).
 Notation dget := (dget DR DC ER dr0 dc0).
 Notation dsessions_run := (dsessions_run DT DV DR DC ER dr0 dc0 des).
 
-(* FreeDecoder resets everything the operations can observe, whatever the decoder went through *)
-Lemma free_dec_same_new (s : dec) : dec_same (free_dec s) new_dec.
-Proof. unfold Pool.dec_same. cbn. repeat split; reflexivity. Qed.
+Definition nonuser (b : dbuf) : Prop := norm_buf b = BufNil.
+
+(* guard: when the decoder is released while a reader is attached, its buffer is not a slice of
+   a caller (ResetBuffer keeps the buffer in that case) *)
+Definition buf_guard (s : dec) : Prop := d_from_reader s = true -> nonuser (d_buf s).
+
+(* exactly what survives FreeDecoder: the buffer when a reader was attached, nothing else *)
+Lemma free_dec_char (s : dec) :
+  free_dec s = {| d_in := []; d_buf := if d_from_reader s then d_buf s else BufNil; d_from_reader := false;
+                  d_simple := false; d_refer := dr0; d_cls := dc0; d_err := None; d_opts := opts0 |}.
+Proof. reflexivity. Qed.
+
+Lemma free_dec_same_new (s : dec) : buf_guard s -> dec_same (free_dec s) new_dec.
+Proof.
+  intros G. unfold Pool.dec_same. cbn. repeat split; try reflexivity.
+  destruct (d_from_reader s) eqn:E; [|reflexivity]. apply G. exact E.
+Qed.
 
 Lemma dec_same_refl (s : dec) : dec_same s s.
 Proof. unfold Pool.dec_same. repeat split; reflexivity. Qed.
 
+Lemma norm_buf_match {A} (a b : dbuf) (x y : A) : norm_buf a = norm_buf b ->
+  match a with BufUser O => x | _ => y end = match b with BufUser O => x | _ => y end.
+Proof. destruct a as [| |[|n]], b as [| |[|m]]; cbn; intros H; try reflexivity; discriminate. Qed.
+
+Lemma norm_buf_match_S {A} (a b : dbuf) (x y : A) : norm_buf a = norm_buf b ->
+  match a with BufUser (S _) => x | _ => y end = match b with BufUser (S _) => x | _ => y end.
+Proof. destruct a as [| |[|n]], b as [| |[|m]]; cbn; intros H; try reflexivity; discriminate. Qed.
+
+Lemma norm_buf_load (a b : dbuf) : norm_buf a = norm_buf b ->
+  norm_buf (match a with BufNil => BufOwn | x => x end) = norm_buf (match b with BufNil => BufOwn | x => x end).
+Proof. destruct a, b; cbn; intros H; try reflexivity; try discriminate; exact H. Qed.
+
 Lemma dec_same_step (a b : dec) (o : dop DT) : dec_same a b ->
   snd (dec_step a o) = snd (dec_step b o) /\ dec_same (fst (dec_step a o)) (fst (dec_step b o)).
 Proof.
-  intros (Hi & Hf & Hs & Hr & Hc & He & Ho).
-  destruct o; cbn [Pool.dec_step Pool.ddecode Pool.dreset Pool.dset_simple Pool.dreset_buffer fst snd];
-    unfold Pool.dec_same; cbn; rewrite ?Hi, ?Hf, ?Hs, ?Hr, ?Hc, ?He, ?Ho; repeat split; reflexivity.
+  intros (Hi & Hb & Hf & Hs & Hr & Hc & He & Ho).
+  destruct o; cbn [Pool.dec_step Pool.dreset Pool.dset_simple Pool.dreset_buffer fst snd].
+  - (* DDecode *)
+    unfold Pool.ddecode, Pool.dhangs, Pool.dclobbers.
+    rewrite Hi, Hf, Hs, Hr, Hc, He, Ho.
+    destruct (d_buf a) as [| |[|n]] eqn:Ea, (d_buf b) as [| |[|m]] eqn:Eb; cbn in Hb; try discriminate;
+      try (injection Hb as Hnm; subst m);
+      destruct (d_from_reader b) eqn:Efr, (d_in b) eqn:Ein; cbn [andb fst snd];
+      (split; [reflexivity|]); unfold Pool.dec_same; cbn; rewrite ?Ea, ?Eb, ?Efr, ?Ein, ?Hi, ?Hf, ?Hs, ?Hr, ?Hc, ?He, ?Ho;
+      repeat split; reflexivity.
+  - unfold Pool.dec_same; cbn; rewrite ?Hi, ?Hf, ?Hs, ?Hr, ?Hc, ?He, ?Ho; repeat split; try reflexivity; exact Hb.
+  - unfold Pool.dec_same; cbn; rewrite ?Hi, ?Hf, ?Hs, ?Hr, ?Hc, ?He, ?Ho; repeat split; try reflexivity; exact Hb.
+  - unfold Pool.dec_same; cbn; rewrite ?Hi, ?Hf, ?Hs, ?Hr, ?Hc, ?He, ?Ho; repeat split; reflexivity.
+  - unfold Pool.dec_same; cbn; rewrite ?Hi, ?Hf, ?Hs, ?Hr, ?Hc, ?He, ?Ho; repeat split; try reflexivity; exact Hb.
+  - unfold Pool.dec_same; cbn; rewrite ?Hi, ?Hf, ?Hs, ?Hr, ?Hc, ?He, ?Ho; repeat split; try reflexivity.
+    destruct (d_from_reader b); [exact Hb|reflexivity].
+  - unfold Pool.dec_same; cbn; rewrite ?Hi, ?Hf, ?Hs, ?Hr, ?Hc, ?He, ?Ho; repeat split; try reflexivity; exact Hb.
+  - rewrite He. split; [reflexivity|]. unfold Pool.dec_same. repeat split; assumption.
+  - rewrite Hs. split; [reflexivity|]. unfold Pool.dec_same. repeat split; assumption.
+  - rewrite Ho. split; [reflexivity|]. unfold Pool.dec_same. repeat split; assumption.
 Qed.
 
 Lemma dec_same_run : forall (ops : list (dop DT)) (a b : dec), dec_same a b ->
@@ -160,8 +203,56 @@ Proof.
     split; [congruence|exact H4].
 Qed.
 
-Lemma free_dec_fresh (s : dec) : dec_fresh_equiv (free_dec s).
-Proof. intros ops. apply (dec_same_run ops _ _ (free_dec_same_new s)). Qed.
+Lemma free_dec_fresh_partial (s : dec) : buf_guard s -> dec_fresh_equiv (free_dec s).
+Proof. intros G ops. apply (dec_same_run ops _ _ (free_dec_same_new s G)). Qed.
+
+(* a use with one kind of input source, started on a decoder without a caller's slice and without
+   a reader, ends in a state that meets the guard *)
+Lemma step_nonuser (s : dec) (o : dop DT) :
+  is_reset_bytes o = false -> nonuser (d_buf s) -> nonuser (d_buf (fst (dec_step s o))).
+Proof.
+  intros Ho Hn. destruct o; cbn [Pool.dec_step fst]; try exact Hn; try discriminate.
+  - unfold Pool.ddecode. destruct (dhangs DR DC ER s); cbn [fst d_buf]; [exact Hn|].
+    destruct (d_from_reader s); [|exact Hn]. unfold nonuser in *. destruct (d_buf s); cbn in *; try reflexivity; exact Hn.
+  - cbn. unfold nonuser in *. destruct (d_from_reader s); [exact Hn|reflexivity].
+Qed.
+
+Lemma run_nonuser : forall (ops : list (dop DT)) (s : dec),
+  forallb (fun o => negb (is_reset_bytes o)) ops = true -> nonuser (d_buf s) -> nonuser (d_buf (fst (dec_run s ops))).
+Proof.
+  induction ops as [|o r IH]; intros s Hf Hn; cbn [Pool.dec_run]; [exact Hn|].
+  cbn in Hf. apply andb_prop in Hf as [Ho Hr]. apply negb_true_iff in Ho.
+  pose proof (step_nonuser s o Ho Hn) as H1. destruct (dec_step s o) as [s1 ob]. cbn [fst] in H1.
+  specialize (IH s1 Hr H1). destruct (dec_run s1 r) as [s2 obs]. exact IH.
+Qed.
+
+Lemma step_noreader (s : dec) (o : dop DT) :
+  is_reset_reader o = false -> d_from_reader s = false -> d_from_reader (fst (dec_step s o)) = false.
+Proof.
+  intros Ho Hn. destruct o; cbn [Pool.dec_step fst]; try exact Hn; try discriminate; try reflexivity.
+  unfold Pool.ddecode. destruct (dhangs DR DC ER s); cbn [fst d_from_reader]; exact Hn.
+Qed.
+
+Lemma run_noreader : forall (ops : list (dop DT)) (s : dec),
+  forallb (fun o => negb (is_reset_reader o)) ops = true -> d_from_reader s = false ->
+  d_from_reader (fst (dec_run s ops)) = false.
+Proof.
+  induction ops as [|o r IH]; intros s Hf Hn; cbn [Pool.dec_run]; [exact Hn|].
+  cbn in Hf. apply andb_prop in Hf as [Ho Hr]. apply negb_true_iff in Ho.
+  pose proof (step_noreader s o Ho Hn) as H1. destruct (dec_step s o) as [s1 ob]. cbn [fst] in H1.
+  specialize (IH s1 Hr H1). destruct (dec_run s1 r) as [s2 obs]. exact IH.
+Qed.
+
+Lemma one_source_guard (ops : list (dop DT)) (s : dec) :
+  one_source ops = true -> nonuser (d_buf s) -> d_from_reader s = false -> buf_guard (fst (dec_run s ops)).
+Proof.
+  intros H Hn Hr. unfold Pool.one_source in H. apply orb_prop in H as [H|H].
+  - intros _. apply run_nonuser; assumption.
+  - intros E. rewrite (run_noreader ops s H Hr) in E. discriminate.
+Qed.
+
+Lemma same_new_nonuser (d : dec) : dec_same d new_dec -> nonuser (d_buf d) /\ d_from_reader d = false.
+Proof. intros (_ & Hb & Hf & _). split; [exact Hb|exact Hf]. Qed.
 
 Lemma dget_all_same (p : dpool DR DC ER) (c : option nat) :
   Forall (fun e => dec_same e new_dec) p ->
@@ -175,24 +266,28 @@ Proof.
   - split; [apply dec_same_refl|exact H].
 Qed.
 
-(* every history of pooled uses with ARBITRARY operations of the public API in each use
-   (modes, options, failing inputs, explicit resets): each use observes what it would observe
-   on a new decoder *)
+(* every history of pooled uses, each with ARBITRARY operations of the public API (modes, options,
+   failing inputs, explicit resets) as long as it takes its input from one kind of source: each use
+   observes what it would observe on a new decoder *)
 Lemma sessions_fresh : forall (l : list (dsession DT)) (p : dpool DR DC ER),
   Forall (fun e => dec_same e new_dec) p ->
+  Forall (fun ss => one_source (dss_ops ss) = true) l ->
   Forall (fun e => dec_same e new_dec) (fst (dsessions_run p l)) /\
   snd (dsessions_run p l) = map (fun ss => snd (dec_run new_dec (dss_ops ss))) l.
 Proof.
-  induction l as [|ss r IH]; intros p Hp; cbn [Pool.dsessions_run].
+  induction l as [|ss r IH]; intros p Hp Hl; cbn [Pool.dsessions_run].
   - split; [exact Hp|reflexivity].
-  - unfold Pool.dsession_run.
+  - inversion Hl as [|? ? Hss Hr]; subst.
+    unfold Pool.dsession_run.
     destruct (dget_all_same p (dss_choice ss) Hp) as [Hg Hrest].
     destruct (dget p (dss_choice ss)) as [d p1]. cbn [fst snd] in Hg, Hrest.
     destruct (dec_same_run (dss_ops ss) d new_dec Hg) as [Hobs _].
-    destruct (dec_run d (dss_ops ss)) as [d1 obs] eqn:E1. cbn [snd] in Hobs.
+    destruct (same_new_nonuser d Hg) as [Hnu Hnr].
+    pose proof (one_source_guard (dss_ops ss) d Hss Hnu Hnr) as Hguard.
+    destruct (dec_run d (dss_ops ss)) as [d1 obs] eqn:E1. cbn [fst snd] in Hobs, Hguard.
     assert (Hp1 : Forall (fun e => dec_same e new_dec) (free_dec d1 :: p1)).
-    { constructor; [apply free_dec_same_new|exact Hrest]. }
-    specialize (IH (free_dec d1 :: p1) Hp1).
+    { constructor; [apply free_dec_same_new; exact Hguard|exact Hrest]. }
+    specialize (IH (free_dec d1 :: p1) Hp1 Hr).
     destruct (dsessions_run (free_dec d1 :: p1) r) as [p2 all]. cbn [fst snd] in *.
     destruct IH as [IH1 IH2]. split; [exact IH1|]. cbn [map]. f_equal; assumption.
 Qed.
@@ -401,9 +496,57 @@ Definition dnext : list (dop unit) := [DSimple true; DResetBytes (bs "r1;"); DDe
 
 Lemma dec_simple_true_refuted :
   snd (c_dec_run (fst (c_dec_run (c_new_decoder dinput1) dhist)) dnext) =
-    [ODUnit; ODUnit; ODecoded (DStr (bs "hello")) None] /\
-  snd (c_dec_run (c_new_decoder []) dnext) = [ODUnit; ODUnit; ODecoded DPanic None].
+    [ODUnit; ODUnit; ODecoded (DStr (bs "hello")) None false] /\
+  snd (c_dec_run (c_new_decoder []) dnext) = [ODUnit; ODUnit; ODecoded DPanic None false].
 Proof. split; vm_compute; reflexivity. Qed.
+
+(* pooled path: a user gives a pooled decoder a slice (ResetBytes) and then a reader (ResetReader);
+   ResetBuffer keeps the buffer when a reader is attached, so the pool now holds a decoder whose
+   read buffer is that user's slice: the NEXT user's input is read into it *)
+Notation c_dec_fresh_equiv := (dec_fresh_equiv unit dval drefs unit cerr [] tt cdes).
+
+Definition dhist_buf : list (dop unit) :=
+  [DResetBytes (bs "i42;xxxxxxxxxxxxxxxx"); DDecode tt; DResetReader (bs "i7;"); DDecode tt].
+
+Lemma pool_dec_buffer_refuted : ~ c_dec_fresh_equiv (c_free_dec (fst (c_dec_run c_new_dec dhist_buf))).
+Proof.
+  intros H. specialize (H [DResetReader (bs "s19""secret-of-next-user"""); DDecode tt]). vm_compute in H. discriminate.
+Qed.
+
+Lemma pool_dec_buffer_leak :
+  snd (c_dec_run (c_free_dec (fst (c_dec_run c_new_dec dhist_buf)))
+                 [DResetReader (bs "s19""secret-of-next-user"""); DDecode tt]) =
+  [ODUnit; ODecoded (DStr (bs "secret-of-next-user")) None true].
+Proof. vm_compute. reflexivity. Qed.
+
+(* ... and when that slice is empty the next reader-fed use never returns *)
+Definition dhist_hang : list (dop unit) := [DResetBytes []; DResetReader (bs "i7;")].
+
+Lemma pool_dec_hang :
+  snd (c_dec_run (c_free_dec (fst (c_dec_run c_new_dec dhist_hang))) [DResetReader (bs "i7;"); DDecode tt]) =
+  [ODUnit; ODHang].
+Proof. vm_compute. reflexivity. Qed.
+
+Lemma dhist_buf_not_guarded :
+  d_from_reader (fst (c_dec_run c_new_dec dhist_buf)) = true /\
+  d_buf (fst (c_dec_run c_new_dec dhist_buf)) = BufUser 20.
+Proof. split; vm_compute; reflexivity. Qed.
+
+(* non-vacuity: a history of decoder uses with modes, options, failing inputs; one source each *)
+Definition sample_dsessions : list (dsession unit) :=
+  [ mk_dsession None [DSimple false; DResetBytes (bs "a2{s5""hello""r1;}"); DSetOpts (mk_opts 3 1 1 1 0); DDecode tt];
+    mk_dsession (Some 0) [DGetOpts; DResetBytes (bs "r0;"); DDecode tt; DGetError];
+    mk_dsession (Some 0) [DSimple true; DResetReader (bs "l5;Z"); DDecode tt; DDecode tt; DGetError] ].
+
+Lemma sample_dsessions_one_source : Forall (fun ss => one_source (dss_ops ss) = true) sample_dsessions.
+Proof. repeat constructor. Qed.
+
+Lemma sample_dsessions_obs :
+  snd (c_dsessions_run [] sample_dsessions) =
+  [ [ODUnit; ODUnit; ODUnit; ODecoded (DList [DStr (bs "hello"); DStr (bs "hello")]) None false];
+    [ODOpts opts0; ODUnit; ODecoded DPanic None false; ODErr None];
+    [ODUnit; ODUnit; ODecoded (DLong 0 5) None false; ODecoded DNil (Some EInvalidTag) false; ODErr (Some EInvalidTag)] ].
+Proof. vm_compute. reflexivity. Qed.
 
 (* non-vacuity of the pool theorems: a history with modes, failing value, explicit resets *)
 Definition sample_sessions : list (esession val N) :=
